@@ -57,15 +57,29 @@ def literals(seed, tier):
     subt = {'lang': ['en', 'EN', 'fil', 'abcdefgh', 'und', 'UND'], 'script': ['Latn', 'latn', 'CYRL'], 'region': ['US', 'us', '419', '001'],
             'variant': ['valencia', 'VALENCIA', '1996', '1abc', 'macos123']}
     bad_langid = ['', 'e', 'en-', '-en', 'en--US', 'en-US-GB', 'en-Latn-Latn', 'en-1', 'en-toolongsubtag', 'en-US-u-ca-buddhist', 'en US', 'en-$$', '123', 'a1', 'en-valencia-US', 'en-12',
-                  'abcd', 'en-Latn-US-Latn', 'en.US', 'en-u', 'toolonglanguage', 'en-US-', 'e1', 'en-valencia-Latn']
+                  'abcd', 'en-Latn-US-Latn', 'en.US', 'en-u', 'toolonglanguage', 'en-US-', 'e1', 'en-valencia-Latn',
+                  # surrounding / embedded white space, control and non-ASCII characters are never part of a subtag and never separators
+                  ' en-US', 'en-US ', 'en-US\n', '\ten', 'en-US\u00a0', 'en\u0000', '\uff45\uff4e', 'en -US', 'en-\u00dcS', 'en-US\r\n']
     bad_locale = ['', 'e', 'en-u1', 'en-u-ca-buddhist-u-nu-thai', 'de-t-en-US-fra', 'en-u-ca-buddhist-toolongsubtag', 'en-t-h0-hybrid-$$', 'en-x-toolongprivate', 'en-US-GB', 'en-ux-foo',
-                  'en-t-h0-hybrid-t-k0-dvorak', 'en-u-c1', 'en-t-h0', 'en-x-foo-$', 'en-!-foo', 'en-t-en-US-h0-hybrid-u-ca-buddhist-u-nu-thai', 'en-u-ca-buddhist-12', 'en-latn-latn-u-ca-buddhist']
-    bad_sub = {'lang': ['e', 'abcd', 'e1', 'toolonglang', ''], 'script': ['Lat', 'La1n', 'Latin', ''], 'region': ['U', '12', 'USA', '1234', 'u1'], 'variant': ['abc', 'abcd', '1ab', 'toolongvariant', 'ab$de']}
+                  'en-t-h0-hybrid-t-k0-dvorak', 'en-u-c1', 'en-t-h0', 'en-x-foo-$', 'en-!-foo', 'en-t-en-US-h0-hybrid-u-ca-buddhist-u-nu-thai', 'en-u-ca-buddhist-12', 'en-latn-latn-u-ca-buddhist',
+                  ' en-u-ca-buddhist', 'en-u-ca-buddhist ', 'en-u-ca-buddhist\n', 'en-x-foo\u0000', 'en-u-ca-\u00e9t\u00e9']
+    bad_sub = {'lang': ['e', 'abcd', 'e1', 'toolonglang', '', ' en', 'en ', 'en\n'], 'script': ['Lat', 'La1n', 'Latin', '', ' Latn', 'Latn '], 'region': ['U', '12', 'USA', '1234', 'u1', ' US', 'US\n'],
+               'variant': ['abc', 'abcd', '1ab', 'toolongvariant', 'ab$de', ' macos', 'macos ']}
     return langids, locales, subt, bad_langid, bad_locale, bad_sub
 
 
 def rust_str(s):
-    return '"' + s.replace('\\', '\\\\').replace('"', '\\"') + '"'
+    out = ''
+    for ch in s:
+        if ch == '\\':
+            out += '\\\\'
+        elif ch == '"':
+            out += '\\"'
+        elif 0x20 <= ord(ch) < 0x7F:
+            out += ch
+        else:
+            out += '\\u{%x}' % ord(ch)
+    return '"' + out + '"'
 
 
 def generate(root, seed, tier):
@@ -285,10 +299,9 @@ def expected(kind, lit, order):
             'Region': [refparse.enc(region, 4, order)] if region else [], 'Variant': [refparse.enc(v, 8, order) for v in variants], 'ext': ext}
 
 
-def run(tier, replay=None):
-    rep = common.new_report('C16', tier, 'translation_validation')
+def witness_obligations(rep, tier, prog):
+    """the witness leg of C16: generated macro invocations are type-checked, their expansions read from MIR and compared with the reference"""
     seed = int(os.environ.get('VERIF_SEED', '0') or 0)
-    prog = common.program('K0')
     enc = pair.raw_encoding(prog, rep)
     orders = set(i['decode'] for i in enc.values())
     order = orders.pop() if len(orders) == 1 and None not in orders else 'little'
@@ -413,6 +426,40 @@ def run(tier, replay=None):
         rep.floor('ill-formed witnesses', len(bad), 40)
     finally:
         shutil.rmtree(root, ignore_errors=True)
+
+
+def witness_family(rep, tier='quick'):
+    """the same witness obligations as a family of ANOTHER property (values built by the macros are values of that property's domain): computed once
+    per tree and cached next to the fact dumps, then replayed into `rep`"""
+    import json
+    from .. import report as reportmod
+    seed = int(os.environ.get('VERIF_SEED', '0') or 0)
+    th = factsmod.tree_hash()
+    cf = os.path.join(factsmod.CACHE, th, 'witness-%s-%d.json' % ('thorough' if tier == 'thorough' else 'quick', seed))
+    rows = None
+    if os.path.exists(cf):
+        try:
+            rows = json.load(open(cf))
+        except Exception:
+            rows = None
+    if rows is None:
+        tmp = common.new_report('C16', tier, 'translation_validation')
+        witness_obligations(tmp, tier, common.program('K0'))
+        rows = [dict(key=o.key, rule=o.rule, fn=o.fn, site=o.site, what=o.what, ok=o.ok, detail=o.detail, how=o.how, witness=o.witness) for o in tmp.obls]
+        os.makedirs(os.path.dirname(cf), exist_ok=True)
+        with open(cf + '.tmp', 'w') as f:
+            json.dump(rows, f)
+        os.replace(cf + '.tmp', cf)
+    for r in rows:
+        rep.ob(r['key'], r['rule'], r['fn'], r['site'], r['what'], r['ok'], detail=r['detail'], how=r['how'], witness=r['witness'])
+    return len(rows)
+
+
+def run(tier, replay=None):
+    rep = common.new_report('C16', tier, 'translation_validation')
+    seed = int(os.environ.get('VERIF_SEED', '0') or 0)
+    prog = common.program('K0')
+    witness_obligations(rep, tier, prog)
     # the macro crates link their own build of the impl crates (host dependency, no optional feature) while the user's run-time parser is
     # built with whatever features the user enables: "equal to parsing at run time" needs the two builds to be the same code
     from .. import diff
@@ -434,6 +481,13 @@ def run(tier, replay=None):
     # the run-time `parse().expect()` that locale! emits: the canonical extension string re-parses (spec round trip, shared with C05)
     # decided on the code, not only on the specification tables: the Display automata and the parser tables extracted from the MIR
     c05.roundtrip_obligations(prog, rep)
+    # the proc macros parse their literal with FromStr of the matching type: that route must be the parser of C02/C03 on the whole, unaltered literal
+    from . import c02, c13, subtag_api, validators
+    c13.wiring(prog, rep)
+    c02.fromstr_delegation(prog, rep, 'unic_langid_impl', 'LanguageIdentifier')
+    c02.fromstr_delegation(prog, rep, 'unic_locale_impl', 'Locale')
+    validators.run_all(prog, rep, roles_wanted={'Language', 'Script', 'Region', 'Variant'})
+    subtag_api.run(prog, rep)
     rep.explanation = ('Translation validation on a generated witness set: each well-formed invocation must type-check and its expansion, read from the MIR of the witness crate, must carry exactly the '
                        'integer forms / extension string of the canonical value that the checker\'s own reference canonicaliser computes for the literal; each ill-formed literal must be a compile '
                        'error located at its invocation. locale! defers the extensions to a run-time parse of the canonical string it emits; that this parse succeeds and gives the same extensions is '
